@@ -32,7 +32,7 @@ import math
 from fractions import Fraction
 
 from opsim.core import HarnessError
-from opsim.util import call, weighted
+from opsim.util import call, weighted, quiet
 
 from operon_ai.topology.quorum import QuorumSensing, EmergencyQuorum, VotingStrategy, VoteType
 from operon_ai.state.metabolism import ATP_Store
@@ -371,16 +371,16 @@ class RealVoter:
 
 def build(cfg, weights, budget, rel=None):
     n = cfg["n"]
-    store = ATP_Store(budget=budget, silent=True)
+    store = ATP_Store(budget=budget, silent=quiet())
     t = cfg["threshold"]
     if cfg["emergency"]:
-        q = EmergencyQuorum(n_agents=n, budget=store, emergency_threshold=t, silent=True)
+        q = EmergencyQuorum(n_agents=n, budget=store, emergency_threshold=t, silent=quiet())
     elif cfg.get("via_set"):
-        q = QuorumSensing(n_agents=n, budget=store, min_voters=cfg["min_voters"], silent=True)
+        q = QuorumSensing(n_agents=n, budget=store, min_voters=cfg["min_voters"], silent=quiet())
         q.set_strategy(VotingStrategy(cfg["strategy"]), t)
     else:
         q = QuorumSensing(n_agents=n, budget=store, strategy=VotingStrategy(cfg["strategy"]), threshold=t,
-                          min_voters=cfg["min_voters"], silent=True)
+                          min_voters=cfg["min_voters"], silent=quiet())
     if len(q.colony) != n:
         raise HarnessError("colony size differs from n_agents")
     for i, p in enumerate(q.colony):
